@@ -73,6 +73,8 @@ TokBytes(sym, e) ==
     LET us == Units(sym) IN
     IF Len(us) = 1 THEN UnitBytes(us[1], e) ELSE UnitBytes(us[1], e) \o UnitBytes(us[2], e)
   ELSE IF e = "u8" THEN
+    IF sym = "bad" THEN <<255>>          \* a byte that never occurs in UTF-8: malformed, one U+FFFD when decoded by label
+    ELSE
     LET us == Units(sym) IN
     IF Len(us) = 1 THEN Utf8(us[1]) ELSE Utf8(Astral(us[1], us[2]))     \* no lone surrogates in UTF-8 texts
   ELSE IF e = "l1" THEN
@@ -162,9 +164,14 @@ DecSJ(bs) ==
   ELSE IF SJLead(bs[1]) /\ Len(bs) >= 2 THEN SJ(<<bs[1], bs[2]>>) \o DecSJ(Drop(bs, 2))
   ELSE SJ(<<bs[1]>>) \o DecSJ(Tail(bs))
 
+\* UTF-8 -> UTF-8: the generated texts are well-formed except for the byte 255 ("bad"), which becomes U+FFFD
+RECURSIVE DecU8(_)
+DecU8(bs) == IF bs = <<>> THEN <<>> ELSE (IF bs[1] = 255 THEN FFFD ELSE <<bs[1]>>) \o DecU8(Tail(bs))
+BadBytes(bs) == Cardinality({i \in 1..Len(bs) : bs[i] = 255})
+
 DecodeAs(bs, e) ==
   CASE e = "raw" -> bs
-    [] e = "u8" -> bs                  \* generated UTF-8 is well-formed (Sensible)
+    [] e = "u8" -> DecU8(bs)
     [] e \in {"le", "be"} -> Dec16(bs, e)
     [] e = "l1" -> DecL1(bs)
     [] e = "sj" -> DecSJ(bs)
@@ -179,6 +186,8 @@ Sensible(s) ==
   /\ (e = "u8" => s.enc = "u8")
   /\ (e = "sj" => s.enc = "sj")
   /\ (s.enc = "u8" => \A i \in 1..Len(s.text) : s.text[i] \notin {"hi", "lo"})
+  \* malformed UTF-8 only where the label (not a mark) selects UTF-8: a marked input is passed through by ripgrep
+  /\ ((\E i \in 1..Len(s.text) : s.text[i] = "bad") => s.enc = "u8" /\ s.bom = "none" /\ s.label = "utf-8")
 
 \* which clause of the property a scenario exercises
 Clause(s) ==
@@ -300,7 +309,7 @@ Emitted == Done =>
   /\ ModelSane(dec, CfgPlain) /\ ModelSane(dec, CfgPass)
   /\ PrintT(<<"EMIT", ToJson([scn |-> scn, bytes |-> inp.bytes, dec |-> dec, eff |-> eff,
                               strip |-> Stripped(BomOf(inp.bytes), scn.label), clause |-> Clause(scn),
-                              mal |-> ne + (IF eff = "sj" /\ scn.odd THEN 1 ELSE 0), flush |-> fl, cuts |-> cuts, ck |-> ck,
+                              mal |-> ne + (IF eff = "sj" /\ scn.odd THEN 1 ELSE 0) + (IF eff = "u8" THEN BadBytes(inp.bytes) ELSE 0), flush |-> fl, cuts |-> cuts, ck |-> ck,
                               ref |-> Expected(dec, CfgPlain), refp |-> Expected(dec, CfgPass),
                               ok |-> (out = dec)])>>)
 =============================================================================
